@@ -4,7 +4,7 @@ import time
 
 from c05 import calls_through_closures, receiver_key
 from common import Rule, finish
-from mirutil import Body, op_local
+from mirutil import Body, LocalGraph, norm_def, op_local
 
 
 def one(facts, rule, rx, crate):
@@ -67,17 +67,31 @@ def run(facts, tier):
         pops = b.find_calls(r"alloc::vec::Vec::<T, A>::pop$")
         popkeys = {receiver_key(b, q) for q in pops}
         open_push = [p for p in pushes if receiver_key(b, p) in popkeys]
-        parses = b.find_calls(r"^jaq_core::load::parse_defs$")
+        # what the guards protect is found by what it does, not by name: the steps of `find` that lex/parse the module
+        # text, and the steps that descend into the module's own imports (recursion into `find`, directly, through a
+        # helper or through a closure built here)
+        lg = LocalGraph(facts, {"jaq_core"})
+        me = norm_def(b.j["def"])
+        is_lex = lambda d: re.search(r"^jaq_core::load::lex::Lexer::lex$|^jaq_core::load::parse::Parser::parse$", d) is not None
+        parses, descends = [], []
+        for i, tgt in lg.uses(b.j):
+            if tgt.startswith("jaq_core::") or tgt in lg.bodies:
+                if lg.reaches(tgt, is_lex) and i not in parses:
+                    parses.append(i)
+                if (tgt == me or lg.reaches(tgt, lambda d: d == me)) and i not in descends:
+                    descends.append(i)
         allocs = b.find_calls(r"typed_arena::Arena::<T>::alloc$")
         contains = b.find_calls(r"core::slice::<impl \[T\]>::contains$")
         if not open_push or not parses or not contains:
-            g1.missing_anchor(f"open.push ({len(open_push)}) / parse_defs ({len(parses)}) / contains ({len(contains)}) in Loader::find")
+            g1.missing_anchor(f"open.push ({len(open_push)}) / parsing step ({len(parses)}) / contains ({len(contains)}) in Loader::find")
+        if not descends:
+            g1.missing_anchor("recursive descent into the imports of a module in Loader::find")
         for c in contains:
             sws = bool_switches(b, b.call_result_local(c))
             if not sws:
                 g1.violate("contains-unused", "the result of the membership test on the open-module stack is not branched on", where=b.bbs[c]["t"]["sp"])
             for sw, t_true, t_false in sws:
-                for x, what in [(p, "open.push") for p in open_push] + [(p, "parse_defs") for p in parses]:
+                for x, what in [(p, "open.push") for p in open_push] + [(p, "parse") for p in parses] + [(p, "descend-into-imports") for p in descends if p not in parses]:
                     ok = b.edge_dominates((sw, t_false), x)
                     g1.examined((what, b.bbs[x]["t"]["sp"]), True, {"site": what, "at": b.bbs[x]["t"]["sp"], "only_if_not_open": ok})
                     if not ok:
@@ -103,7 +117,7 @@ def run(facts, tier):
                 if not none_t:
                     continue
                 done = True
-                for x, what in [(a, "Arena::alloc") for a in allocs] + [(p, "parse_defs") for p in parses]:
+                for x, what in [(a, "Arena::alloc") for a in allocs] + [(p, "parse") for p in parses]:
                     ok = b.edge_dominates((sw, none_t[0]), x)
                     g2.examined((what, b.bbs[x]["t"]["sp"]), True, {"site": what, "only_if_not_loaded": ok})
                     if not ok:
